@@ -153,7 +153,8 @@ pub fn corpus() -> Vec<(String, String)> {
 /// Confirmed front-end crashes whose fixes have all landed (DESIGN §7 fix rows): (id, probe text).  Every
 /// check runs them first, in a child process, as hard regression inputs: a crash is a failing input of the
 /// property, reported with the probe's source.  Nothing is gated.
-pub const GATES: [(&str, &str); 22] = [
+pub const GATES: [(&str, &str); 23] = [
+    ("D114", "type Color = Red | Green\nColor.Red = Color.Green\n"),
     ("D110", "interface Foo {\n  fn a(self: Self) -> int\n  fn b(self: Self) -> int\n}\nimplement Foo for array<Bogus> {\n  fn a(self) -> int { 1 }\n}\n"),
     ("D111", "fn foo(a: int, b: int) -> int { a + b }\nlet x = foo(1, 2"),
     ("D112", "let f = (c: C) -> 1\nprintln(f(2))\n"),
@@ -570,8 +571,11 @@ pub fn namespace_texts() -> Vec<(String, String)> {
 /// ASSIGNMENT family: every assignment operator on every target kind the grammar allows.
 pub fn assignment_texts() -> Vec<(String, String)> {
     let ops = ["=", "+=", "-=", "*=", "/=", "%="];
-    let pre = format!("type Pt = {{ x: int, y: float, v: array<int>, s: string }}\ntype Ou = {{ p: Pt }}\n{INDEX_DECL}type Hg = {{ g: G }}\nfn mk() -> Pt {{ Pt(1, 2.0, [1, 2], \"s\") }}\n");
-    let targets: [(&str, &str, &str); 26] = [
+    let pre = format!("type Pt = {{ x: int, y: float, v: array<int>, s: string }}\ntype Ou = {{ p: Pt }}\n{INDEX_DECL}type Hg = {{ g: G }}\ntype Cl = Rd | Gn(int)\nfn mk() -> Pt {{ Pt(1, 2.0, [1, 2], \"s\") }}\n");
+    let targets: [(&str, &str, &str); 37] = [
+        ("enum-variant", "let q = 1", "Cl.Rd"), ("enum-variant-payload", "let q = 1", "Cl.Gn"), ("dot-variant", "let q: Cl = .Rd", ".Rd"), ("type-name", "let q = 1", "Pt"),
+        ("enum-name", "let q = 1", "Cl"), ("fn-name", "let q = 1", "mk"), ("prelude-fn-name", "let q = 1", "println"), ("tuple-literal", "var t1 = 1\nvar t2 = 2", "(t1, t2)"),
+        ("array-literal", "var t1 = 1", "[t1, 2]"), ("variant-call", "let q = 1", "Cl.Gn(1)"), ("ctor-call", "let q = 1", "Pt(1, 2.0, [1], \"s\")"),
         ("var", "var t = 5", "t"), ("let", "let t = 5", "t"), ("var-float", "var t = 5.0", "t"), ("var-string", "var t = \"a\"", "t"),
         ("field", "var p = mk()", "p.x"), ("field-let", "let p = mk()", "p.x"), ("field-float", "var p = mk()", "p.y"), ("field-string", "var p = mk()", "p.s"),
         ("nested-field", "var o = Ou(mk())", "o.p.x"), ("index", "var a = [1, 2, 3]", "a[1]"), ("index-let", "let a = [1, 2, 3]", "a[1]"), ("index-oob", "var a = [1]", "a[7]"),
@@ -594,6 +598,13 @@ pub fn assignment_texts() -> Vec<(String, String)> {
         v.push((format!("assign:{tn}:in-fn"), format!("{pre}fn run() {{\n  {decl}\n  {target} += 2\n  {target} = {target}\n  println({target})\n}}\nrun()\n")));
         v.push((format!("assign:{tn}:in-lambda"), format!("{pre}{decl}\nlet l = () -> {{\n  {target} += 2\n  {target}\n}}\nprintln(l())\n")));
         v.push((format!("assign:{tn}:in-loop"), format!("{pre}{decl}\nfor i in [1, 2] {{\n  {target} *= i\n}}\nprintln({target})\n")));
+    }
+    // names reached through a namespace as assignment targets (two files)
+    for (k, target) in ["u.sub", "u.Pt", "u.Col", "u.Col.Gray", "u.Col.Rgb", "u", "u.mkpt().x", "u.Pt(1, 2).x", "u.nothere"].iter().enumerate() {
+        for op in ops {
+            v.push((format!("assign:ns{k}:{}", op.replace('=', "eq")), format!("use lib1 as u\n{target} {op} 2\nprintln(1)\n\x1e{NS_LIB}")));
+        }
+        v.push((format!("assign:ns{k}:self"), format!("use lib1 as u\n{target} = {target}\n\x1e{NS_LIB}")));
     }
     for (k, t) in [
         "fn pa(a: int) -> int {\n  a += 1\n  a\n}\nprintln(pa(1))", "for i in [1, 2] {\n  i += 1\n}", "match 3 {\n  n -> {\n    n -= 1\n  }\n}",
@@ -871,6 +882,89 @@ pub const VERDICTS: [(&str, &str, &str); 4] = [
     ("D111b", "fn foo(a: int, b: int) -> int { a + b }\nlet x = [foo(1, 2), 3", "expecting"),
     ("D94-like", "let x: int = \"s\"\n", "int"),
 ];
+
+
+/// CALL-SHAPE family: for each callee kind (function, extension method, struct constructor, named-field variant
+/// constructor written `E.V(..)` and `.V(..)`, namespace-qualified function) x arity 0..=max_arity (with and
+/// without a default on the last parameter) ALL argument lists up to length arity + 2 over {positional,
+/// named-correct (lowest unnamed parameter), named-correct in reverse (highest unnamed parameter; `wide` only),
+/// named-duplicate, named-unknown}, in every order.
+pub fn call_shape_texts(max_arity: usize, wide: bool) -> Vec<(String, String)> {
+    let alphabet: Vec<char> = if wide { vec!['P', 'N', 'R', 'D', 'U'] } else { vec!['P', 'N', 'D', 'U'] };
+    let mut v: Vec<(String, String)> = vec![];
+    for k in 0..=max_arity {
+        // every sequence over the alphabet up to length k + 2
+        let mut seqs: Vec<Vec<char>> = vec![vec![]];
+        let mut frontier: Vec<Vec<char>> = vec![vec![]];
+        for _ in 0..k + 2 {
+            let mut next = vec![];
+            for s in &frontier {
+                for &c in &alphabet {
+                    let mut t = s.clone();
+                    t.push(c);
+                    next.push(t);
+                }
+            }
+            seqs.extend(next.iter().cloned());
+            frontier = next;
+        }
+        let names: Vec<String> = (0..k).map(|i| format!("p{i}")).collect();
+        for seq in &seqs {
+            // render the argument list
+            let mut named: Vec<usize> = vec![];
+            let mut args: Vec<String> = vec![];
+            for (i, c) in seq.iter().enumerate() {
+                let val = i + 1;
+                match c {
+                    'P' => args.push(format!("{val}")),
+                    'N' => {
+                        let j = (0..k).find(|j| !named.contains(j)).unwrap_or(0);
+                        named.push(j);
+                        args.push(if k == 0 { format!("p0 = {val}") } else { format!("{} = {val}", names[j]) });
+                    }
+                    'R' => {
+                        let j = (0..k).rev().find(|j| !named.contains(j)).unwrap_or(0);
+                        named.push(j);
+                        args.push(if k == 0 { format!("p0 = {val}") } else { format!("{} = {val}", names[j]) });
+                    }
+                    'D' => {
+                        let j = named.last().copied().unwrap_or(0);
+                        args.push(if k == 0 { format!("p0 = {val}") } else { format!("{} = {val}", names[j]) });
+                    }
+                    _ => args.push(format!("zz = {val}")),
+                }
+            }
+            let al = args.join(", ");
+            let shape: String = seq.iter().collect();
+            for dflt in [false, true] {
+                if dflt && (k == 0 || (!wide && k > 1)) {
+                    continue;
+                }
+                let params = |typed: bool| -> String {
+                    (0..k)
+                        .map(|i| {
+                            let d = if dflt && i == k - 1 { " = 7" } else { "" };
+                            if typed { format!("p{i}: int{d}") } else { format!("p{i}{d}") }
+                        })
+                        .collect::<Vec<_>>()
+                        .join(", ")
+                };
+                let sum = if k == 0 { "0".to_string() } else { names.join(" + ") };
+                let tag = format!("k{k}{}:{}", if dflt { "d" } else { "" }, if shape.is_empty() { "-" } else { &shape });
+                v.push((format!("callshape:fn:{tag}"), format!("fn cs({}) -> int {{ {sum} }}\nprintln(cs({al}))\n", params(true))));
+                v.push((format!("callshape:fn-untyped:{tag}"), format!("fn cs({}) = {sum}\nprintln(cs({al}))\n", params(false))));
+                v.push((format!("callshape:method:{tag}"), format!("extend int {{\n  fn cs(self{}{}) -> int {{ self + {sum} }}\n}}\nprintln(9.cs({al}))\n", if k > 0 { ", " } else { "" }, params(true))));
+                v.push((format!("callshape:struct:{tag}"), format!("type Cs = {{ {} }}\nlet r = Cs({al})\n", params(true))));
+                if k > 0 {
+                    v.push((format!("callshape:variant:{tag}"), format!("type Ev = Cs({}) | Ww\nlet r = Ev.Cs({al})\n", params(true))));
+                    v.push((format!("callshape:dot-variant:{tag}"), format!("type Ev = Cs({}) | Ww\nlet r: Ev = .Cs({al})\n", params(true))));
+                }
+                v.push((format!("callshape:namespace:{tag}"), format!("use lib1 as u\nprintln(u.cs({al}))\n\x1efn cs({}) -> int {{ {sum} }}\n", params(true))));
+            }
+        }
+    }
+    v
+}
 
 /// crude token boundaries, independent of the real lexer: runs of word characters, single other characters
 pub fn crude_tokens(s: &str) -> Vec<(usize, usize)> {
